@@ -107,7 +107,7 @@ theorem stpcpy_s_C04 (cfg : Cfg) (dest dmax src : Nat) (destbos : Bos) (st : St)
       (r.2 ≠ EOK → r.1 = 0) ∧ Cleared cfg dest dmax st st' r.2 := by
   obtain ⟨r, st', he, hf, hq⟩ := stpcpy_s_ext cfg dest dmax src destbos none st hs.all (fun _ => hrw) hb
   obtain ⟨h1, h2⟩ := hq ⟨hd, hpos, hle⟩
-  have h := h1.post (fun h => h2 h rfl)
+  have h := h1.post (Or.inl (fun h => h2 h rfl))
   exact ⟨r, st', he, h1.fail_ptr, h.fail_first, h.fail_clear, hf.frame⟩
 
 /- FULL statement for a known source size (FALSE of the code, see `stpcpy_s_C04_witness`): the same
@@ -122,7 +122,19 @@ theorem stpcpy_s_C04_partial (cfg : Cfg) (dest dmax src : Nat) (destbos srcbos :
       (∀ a, ¬ (dest ≤ a ∧ a < dest + dmax) → st'.data a = st.data a) := by
   obtain ⟨r, st', he, hf, hq⟩ := stpcpy_s_ext cfg dest dmax src destbos srcbos st hs.all (fun _ => hrw) hb
   obtain ⟨h1, _⟩ := hq ⟨hd, hpos, hle⟩
-  exact ⟨r, st', he, h1.fail_ptr, fun hne => ⟨(h1.post hne).fail_first, (h1.post hne).fail_clear, hf.frame⟩, hf.frame⟩
+  exact ⟨r, st', he, h1.fail_ptr, fun hne => ⟨(h1.post (Or.inl hne)).fail_first, (h1.post (Or.inl hne)).fail_clear, hf.frame⟩, hf.frame⟩
+
+/-- The FULL statement, true of the current tree (e5bca6e): stpcpy_s with ANY knowledge of the source size — every failing exit
+returns NULL, leaves `dest[0] = 0`, with null-slack all dmax cells zero after ESNOSPC / ESOVRLP / ESUNTERM / null src -/
+theorem stpcpy_s_C04_fixed (cfg : Cfg) (hfx : cfg.fixStpUnterm = true) (dest dmax src : Nat) (destbos srcbos : Bos) (st : St)
+    (hs : Setting st) (hrw : RW st dest dmax) (hd : dest ≠ 0) (hpos : 0 < dmax) (hle : dmax ≤ RSIZE_MAX_STR)
+    (hb : ∀ b, destbos = some b → dmax ≤ b) :
+    ∃ r st', exec (stpcpy_s cfg dest dmax src destbos srcbos) st = .ok (r, st') ∧
+      (r.2 ≠ EOK → r.1 = 0) ∧ Cleared cfg dest dmax st st' r.2 := by
+  obtain ⟨r, st', he, hf, hq⟩ := stpcpy_s_ext cfg dest dmax src destbos srcbos st hs.all (fun _ => hrw) hb
+  obtain ⟨h1, _⟩ := hq ⟨hd, hpos, hle⟩
+  have h := h1.post (Or.inr hfx)
+  exact ⟨r, st', he, h1.fail_ptr, h.fail_first, h.fail_clear, hf.frame⟩
 
 /-- dest = 3 cells holding 1 at 100, src = "ab" at 200 -/
 def wStp : St :=
@@ -130,10 +142,10 @@ def wStp : St :=
     mapped := fun _ => true, rd := fun _ => true
     wr := fun a => decide (100 ≤ a ∧ a < 103) }
 
-/-- the excluded point: `stpcpy_s(d, 3, "ab")` with `BOS(src) = 1`, default build: ESUNTERM, and
+/-- the excluded point BEFORE e5bca6e (switch off): `stpcpy_s(d, 3, "ab")` with `BOS(src) = 1`, default build: ESUNTERM, and
 `dest[0]` holds the copied 'a' (a partial result of the failed call) -/
 theorem stpcpy_s_C04_witness :
-    ∃ st', exec (stpcpy_s { slack := true } 100 3 200 none (some 1)) wStp = .ok ((0, ESUNTERM), st') ∧
+    ∃ st', exec (stpcpy_s { slack := true, fixStpUnterm := false } 100 3 200 none (some 1)) wStp = .ok ((0, ESUNTERM), st') ∧
       st'.data 100 = 97 := by
   refine ⟨_, rfl, ?_⟩
   simp [wStp, St.upd, St.noteWr, St.noteRd]
@@ -146,7 +158,7 @@ theorem stpncpy_s_C04 (cfg : Cfg) (dest dmax src slen : Nat) (destbos srcbos : B
       (r.2 ≠ EOK → r.1 = 0) ∧ Cleared cfg dest dmax st st' r.2 := by
   obtain ⟨r, st', he, hf, hq⟩ := stpncpy_s_ext cfg dest dmax src slen destbos srcbos st hs.all (fun _ => hrw) hb hsb
   obtain ⟨h1, h2⟩ := hq ⟨hd, hpos, hle⟩
-  have h := h1.post h2
+  have h := h1.post (Or.inl h2)
   exact ⟨r, st', he, h1.fail_ptr, h.fail_first, h.fail_clear, hf.frame⟩
 
 /-- stpcpy_s, ALL dest/dmax/src (dmax inside a known object): no stray access, nothing outside dest changes -/
